@@ -1,5 +1,6 @@
 import FFVerif.Props.C01
 import FFVerif.Props.C01Seg
+import FFVerif.Props.C01Bound
 import FFVerif.Pins.pinControlMatrixFromScratch
 #print axioms FFVerif.C01.segIntegral_closed
 #print axioms FFVerif.C01.segIntegral_zero
@@ -21,4 +22,23 @@ import FFVerif.Pins.pinControlMatrixFromScratch
 #print axioms FFVerif.C01.segment_trace_integral
 #print axioms FFVerif.C01.cm_segment_form
 #print axioms FFVerif.C01.cm_segment_form_error
+#print axioms FFVerif.C01.firstOrderEntry_norm_le
+#print axioms FFVerif.C01.firstOrderEntry_norm_masked
+#print axioms FFVerif.C01.firstOrderEntry_norm_zero
+#print axioms FFVerif.C01.maskThr_nonneg
+#print axioms FFVerif.C01.cm_entry_eq_trace
+#print axioms FFVerif.C01.cm_entry_norm_le
+#print axioms FFVerif.C01.cm_entry_norm_le'
+#print axioms FFVerif.C01.ff_fid_eq_frob_sq
+#print axioms FFVerif.C01.ff_fid_le
+#print axioms FFVerif.C01.ff_fid_re_le
+#print axioms FFVerif.C01.ff_fid_offdiag_le
+#print axioms FFVerif.C01.herm_sandwich_apply
+#print axioms FFVerif.C01.cm_neg_omega
+#print axioms FFVerif.C01.cm_neg_omega_map
+#print axioms FFVerif.C01.ff_neg_omega
+#print axioms FFVerif.C01.ff_neg_omega_diag
+#print axioms FFVerif.C01.ff_gen_neg_omega
+#print axioms FFVerif.C01.firstOrderEntry_zero_x
+#print axioms FFVerif.C01.ff_fid_le_sharp
 #print axioms FFVerif.Pins.pinControlMatrixFromScratch
